@@ -37,6 +37,8 @@ static uint64_t prng;
 static long run_budget;
 static int tail_preempt;
 static long step_budget;
+static int burst_id; static long burst_len, burst_used[MV_MAXP], burst_total;
+unsigned long mv_nburst;
 static int noise_level;
 static uint32_t case_seed;
 static int reseed_rng = 1;
@@ -164,6 +166,7 @@ static void do_point(int id) {
   cur_id = id;
   at_idle[me] = 0;
   if (point_observer) point_observer(id, me);
+  burst_used[me] = 0;
   if (nparts == 1) return;
   if (--run_budget > 0) return;
   unsigned b = nextbyte();
@@ -207,6 +210,12 @@ static void do_spin(int id) {
     joined[me] = 1;
     __sync_fetch_and_add(&njoined, 1);
     fwait(&turn[me * 16]);
+    return;
+  }
+  if (id == burst_id && burst_used[me] < burst_len && burst_total < 2600000) {
+    /* poll again in place: the same schedule as every other participant being slow for that long */
+    if (burst_used[me]++ == 0) { H(id * 64 + me + 11); mv_hits[id & (MV_NIDS - 1)]++; }
+    burst_total++; mv_nburst++;
     return;
   }
   step_check();
@@ -267,6 +276,8 @@ static void reset_common(const mv_config * cfg) {
   run_budget = 1;
   tail_preempt = cfg->tail_preempt;
   step_budget = cfg->step_budget > 0 ? cfg->step_budget : 5000000;
+  burst_id = cfg->burst_len > 0 ? cfg->burst_id : -1; burst_len = cfg->burst_len; burst_total = 0;
+  for (int i = 0; i < MV_MAXP; i++) burst_used[i] = 0;
   noise_level = cfg->noise_level;
   finished = 0;
   events = 0;
